@@ -423,6 +423,7 @@ class RowArr(_Generic):
         if isinstance(o, GVec):
             raise ModelRaise("ValueError", f"operands could not be broadcast together with shapes (N,{self.k}) (N,)") if self.k != 1 else Unsupported("(N,1) with (N,) broadcast")
         if is_num(o): return [o] * self.k
+        if hasattr(o, "__scalar__"): return [o.__scalar__()] * self.k
         if isinstance(o, TiledRows):
             _len_check(self.space, o.n)
             return list(o.row)
